@@ -186,6 +186,28 @@ Proof.
       rewrite Forall_forall in A. apply alphabet_no_colon. apply A. exact Hin.
 Qed.
 
+(* a string containing a colon can only ever be taken by a CashAddr attempt (hex digits and the
+   Base58 alphabet have no colon): for prefix-qualified strings "not a cash address" is "rejected" *)
+Lemma colon_only_cash s a : In 58 s -> decode_address net rp rs s = Ok a -> is_cash a = true.
+Proof.
+  intros Hin Hdec.
+  destruct (decode_cases P ec_parse net rp rs _ a Hdec) as [Hc|(f & Ht)]; [exact Hc|]. exfalso.
+  unfold tail_path in Ht. destruct (_ || _).
+  - destruct (hex_decode s) as [ser|] eqn:Eh; [|discriminate].
+    apply (hex_decode_canonical _ _ Eh). exact Hin.
+  - destruct (legacy_path_canonical P _ _ _ _ _ Ht) as (id & hsh & _ & _ & Es & _).
+    rewrite Es in Hin. unfold check_encode in Hin.
+    pose proof (encode_alphabet ((id :: hsh) ++ checksum (id :: hsh))) as A.
+    rewrite Forall_forall in A. apply alphabet_no_colon. apply A. exact Hin.
+Qed.
+
+Corollary prefixed_not_cash_rejected s : In 58 s ->
+  (forall a, decode_address net rp rs s = Ok a -> is_cash a = false) ->
+  forall a, decode_address net rp rs s <> Ok a.
+Proof.
+  intros Hin Hnc a Hd. pose proof (colon_only_cash s a Hin Hd) as H1. rewrite (Hnc a Hd) in H1. discriminate.
+Qed.
+
 (* public-key format byte: only 02, 03, 04, 06, 07 *)
 Theorem pubkey_format_strict s fmt pt id : decode_address net rp rs s = Ok (PubKey fmt pt id) ->
   exists b0 t, hex_decode s = Some (b0 :: t) /\ ec_parse (b0 :: t) = Some pt /\
